@@ -7,6 +7,11 @@ import (
 
 // Eval evaluates ast recursively.
 func Eval(node ast.Node, env *object.Env) object.PanObject {
+	if err := verifEnter(); err != nil {
+		return err
+	}
+	defer verifLeave()
+
 	switch node := node.(type) {
 	// Program
 	case *ast.Program:
